@@ -1810,8 +1810,10 @@ class Joiner:
             )
 
         criterion = None
+        # an UPDATE ... JOIN has no FROM item: its first table is the update table
+        base_table = self.query._from[0] if self.query._from else self.query._update_table
         for field in fields:
-            consituent = Field(field, table=self.query._from[0]) == Field(field, table=self.item)
+            consituent = Field(field, table=base_table) == Field(field, table=self.item)
             criterion = consituent if criterion is None else (criterion & consituent)
 
         self.query.do_join(JoinOn(self.item, self.how, criterion))  # type:ignore[arg-type]
